@@ -3,7 +3,8 @@
    operator over the leaves (typed variables, constants 0 1 300 -1 1.5 "s" true nil) placed in every statement
    context, plus exhaustive small statement-level families (terminating statements / break-continue placement,
    := and unused variables, imports and top-level declarations, select/switch clause scoping, calls and
-   multi-value forms).  Every program is exported with the judgment's verdict.  The invariants are
+   multi-value forms, histories of one local name (B6), constant indexes of arrays (B7), package-level
+   initializers (B8)).  Every program is exported with the judgment's verdict.  The invariants are
    theorems of Go's type system that the judgment must satisfy on the whole space (symmetry of the
    symmetric operators, ==/!= and </>= duality, representability monotonicity, var/assign/argument coherence). *)
 EXTENDS Types, TypesCfg, TLC, Json, SequencesExt
@@ -66,6 +67,8 @@ Continue(l) == [k |-> "continue", label |-> l]
 Block(body) == [k |-> "block", body |-> body]
 Closure(res, body) == [k |-> "closure", res |-> res, body |-> body]
 Use(n) == [k |-> "use", name |-> n]
+TypeDecl(name) == [k |-> "typedecl", name |-> name]
+FL(p, ret, arg) == [k |-> "flcall", param |-> p, ret |-> ret, arg |-> arg]      \* func(p int) int { return ret }(arg)
 Nop == Assign(<<Id("vi")>>, <<LitI(1)>>)
 Panic == ExprS(Builtin("panic", <<LitS>>))
 
@@ -124,6 +127,9 @@ MiscE(L) == Flat(<<
    Map1(L, LAMBDA l : <<SliceLit(<<l[2]>>), "slicelit", "", l[1], "">>),
    Map1(L, LAMBDA l : <<MapLit(l[2], LitI(1)), "maplit", "key", l[1], "">>),
    Map1(L, LAMBDA l : <<MapLit(LitS, l[2]), "maplit", "val", l[1], "">>),
+   Map1(L, LAMBDA l : <<FL("z", l[2], LitI(1)), "flcall", "ret", l[1], "">>),
+   Map1(L, LAMBDA l : <<FL("vi", Id("vi"), l[2]), "flcall", "arg", l[1], "">>),
+   Map1(L, LAMBDA l : <<FL("vs", l[2], Id("vs")), "flcall", "hide", l[1], "">>),
    << <<Call(Id("f0"), <<>>), "call", "f0", "", "">>, <<Call(Id("f2"), <<>>), "call", "f2", "", "">>,
       <<Call(Id("f1"), <<>>), "call", "f1", "", "">>, <<Call(Id("fv"), <<>>), "call", "fv", "", "">>,
       <<AssertE(Id("va"), "error"), "assert", "error", "va", "">>, <<AssertE(Id("ve"), "int"), "assert", "int", "ve", "">>,
@@ -247,7 +253,18 @@ S1(res) == LET T == T0(res) IN Flat(<<
    Map1(T, LAMBDA a : Select(<<CRecv(Id("vch"), a)>>)),
    Pairs(T, T, LAMBDA a, b : Select(<<CRecv(Id("vch"), a), CDflt(b)>>)),
    Map1(T, LAMBDA a : TSwitch("", Id("va"), <<TCase(<<"int">>, a), TDflt(<<RetFor(res)>>)>>)),
-   <<Select(<<>>)>> >>)
+   <<Select(<<>>)>>,
+   \* a call of a function literal is an expression statement: never terminating, whatever the literal's body ends with
+   Map1(T0(<<>>), LAMBDA a : Closure(<<>>, a)),
+   <<Closure(<<"int">>, <<Return(<<LitI(1)>>)>>), Closure(<<"int">>, <<Panic>>), ExprS(FL("z", Id("z"), LitI(1))),
+     Send(Id("vch"), FL("z", Id("z"), LitI(1))), IncDec(Index(Id("vsl"), FL("z", Id("z"), LitI(1))))>> >>)
+\* a terminating statement followed by a statement that is not: the list does not end in a terminating statement
+TermHeads(res) == <<RetFor(res), Panic, For(<<>>), Block(<<RetFor(res)>>), IfElse(Id("vb"), <<RetFor(res)>>, <<Panic>>)>>
+Trailers == <<ExprS(Call(Id("f0"), <<>>)), ExprS(Call(Id("f1"), <<LitI(1)>>)), Send(Id("vch"), LitI(1)), ExprS(RecvVch), TypeDecl("T"),
+              IncDec(Id("vi")), OpAssign("+", Id("vi"), LitI(1)), Var(<<"_">>, "int", <<>>), Const("c", "", LitI(1)), GoS(Call(Id("f0"), <<>>)),
+              DeferS(Call(Id("f0"), <<>>)), Block(<<>>), If(Id("vb"), <<>>), Closure(<<>>, <<>>), Blank(LitI(1)),
+              ExprS(Builtin("delete", <<Id("vm"), LitS>>)), Select(<<CDflt(<<>>)>>), Switch(<<>>), ForC(Id("vb"), <<>>)>>
+TrailBodies(res) == LET H == IF Tier = 1 THEN SubSeq(TermHeads(res), 1, 3) ELSE TermHeads(res) IN Pairs(H, Trailers, LAMBDA h, t : <<h, t>>)
 S2(res) == LET S == S1(res) IN Flat(<<
    Map1(S, LAMBDA s : For(<<s>>)),
    Map1(S, LAMBDA s : IfElse(Id("vb"), <<s>>, <<RetFor(res)>>)),
@@ -265,6 +282,7 @@ Labeled(res) == LET inner == << <<Break("L")>>, <<Continue("L")>>, <<For(<<Break
            Map1(inner, LAMBDA b : For(<<ForL("L", b)>>)) >>)
 TermBodies(res) == T0(res) \o Map1(S1(res), LAMBDA s : <<s>>)
                    \o (IF Tier = 1 THEN <<>> ELSE Map1(S1(res), LAMBDA s : <<s, Nop>>) \o Map1(S2(res), LAMBDA s : <<s>>)) \o Map1(Labeled(res), LAMBDA s : <<s>>)
+                   \o TrailBodies(res)
 TermProgs == Map1(TermBodies(<<"int">>), LAMBDA b : Prog("term", "int", NoDesc, <<"int">>, b))
              \o Map1(TermBodies(<<>>), LAMBDA b : Prog("term", "none", NoDesc, <<>>, b))
 
@@ -386,7 +404,6 @@ MvProgs == Flat(Map1(MvRhs, LAMBDA r : <<
    left open by a history is about `a` itself: is it a variable, is it in scope, does the := declare something new, has it
    been READ ("declared and not used" - an assignment or a redeclaration is not a use).  All histories up to the length
    bound are generated (B2 above lists single statements, where an unused companion masks these questions). *)
-TypeDecl(name) == [k |-> "typedecl", name |-> name]
 NewName(j) == CASE j = 1 -> "n1" [] j = 2 -> "n2" [] j = 3 -> "n3" [] OTHER -> "n4"
 Redecl(a, nj, es) == <<Define(<<a, nj>>, es), Use(nj)>>
 LifeEvents(j) == LET nj == NewName(j) IN <<
@@ -414,7 +431,9 @@ LifeEvents(j) == LET nj == NewName(j) IN <<
    <<IfInit(Define(<<"a", nj>>, <<LitI(1), LitI(2)>>), Id("vb"), <<Use(nj), Use("a")>>)>>,     \* if a, nj := 1, 2; vb { _ = nj; _ = a }
    <<Select(<<CRecvAsg(<<Id("a")>>, Id("vch"), <<>>)>>)>>,                         \* select { case a = <-vch: }
    <<Select(<<CRecvDef(<<"a", nj>>, Id("vch"), <<Use(nj), Use("a")>>)>>)>>,        \* select { case a, nj := <-vch: _ = nj; _ = a }
-   <<Var(<<"a", nj>>, "", <<LitI(1), LitI(2)>>), Use(nj)>> >>                      \* var a, nj = 1, 2; _ = nj
+   <<Var(<<"a", nj>>, "", <<LitI(1), LitI(2)>>), Use(nj)>>,                        \* var a, nj = 1, 2; _ = nj
+   <<Blank(FL("a", Id("a"), LitI(2)))>>,                                           \* _ = func(a int) int { return a }(2)   reads the parameter only
+   <<Blank(FL("z", Id("a"), LitI(2)))>> >>                                         \* _ = func(z int) int { return a }(2)
 NLifeQuick == 10
 LifeAt(j, m) == SubSeq(LifeEvents(j), 1, m)
 LifeUpTo3(m) == LifeAt(1, m) \o Pairs(LifeAt(1, m), LifeAt(2, m), LAMBDA s, t : s \o t)
@@ -423,9 +442,71 @@ Life4(m) == Flat(Map1(LifeAt(1, m), LAMBDA s : Flat(Map1(LifeAt(2, m), LAMBDA t 
 LifeBodies == IF Tier = 1 THEN LifeUpTo3(NLifeQuick) ELSE LifeUpTo3(Len(LifeEvents(1))) \o Life4(8)
 LifeProgs == Map1(LifeBodies, LAMBDA b : Prog("life", "", NoDesc, <<>>, b))
 
+(* ---------------------------------------------------------------- B7: arrays - constant indexes and slice bounds, len/cap constants.
+   vr is a [3]int, vq a pointer to it; every index / bound leaf in every indexing form ("a constant index must be in range":
+   0 <= i < len for an index, 0 <= i <= len for a slice bound, of arrays and pointers to arrays; slices and strings beside them). *)
+ArrPre == <<Var(<<"vr">>, "[3]int", <<>>), Var(<<"vq">>, "*[3]int", <<Un("&", Id("vr"))>>), Use("vr"), Use("vq")>>
+LenVr == Builtin("len", <<Id("vr")>>)
+ArrIdx == << <<"0", LitI(0)>>, <<"2", LitI(2)>>, <<"3", LitI(3)>>, <<"4", LitI(4)>>, <<"-1", LitI(-1)>>, <<"vi", Id("vi")>>, <<"len", LenVr>>,
+   <<"len-1", Bin("-", LenVr, LitI(1))>>, <<"1+2", Bin("+", LitI(1), LitI(2))>>, <<"1.5", LitF>>,
+   \* ---- thorough tier only from here
+   <<"300", LitI(300)>>, <<"s", LitS>>, <<"vu8", Id("vu8")>>, <<"vf", Id("vf")>>, <<"nil", Id("nil")>>, <<"cap*", Builtin("cap", <<Id("vq")>>)>>,
+   <<"len+1", Bin("+", LenVr, LitI(1))>>, <<"vi+3", Bin("+", Id("vi"), LitI(3))>>, <<"lensl", Builtin("len", <<Id("vsl")>>)>>, <<"1<<2", Bin("<<", LitI(1), LitI(2))>> >>
+ArrForms(i) == << <<"index", Blank(Index(Id("vr"), i))>>, <<"store", Assign(<<Index(Id("vr"), i)>>, <<LitI(1)>>)>>, <<"slice", Blank(SliceE(Id("vr"), i))>>,
+   <<"pindex", Blank(Index(Id("vq"), i))>>, <<"pslice", Blank(SliceE(Id("vq"), i))>>, <<"dindex", Blank(Index(Un("*", Id("vq")), i))>>,
+   <<"slindex", Blank(Index(Id("vsl"), i))>>, <<"strslice", Blank(SliceE(LitS, i))>>,
+   \* ---- thorough tier only from here
+   <<"incdec", IncDec(Index(Id("vr"), i))>>, <<"addr", Blank(Un("&", Index(Id("vr"), i)))>>, <<"pstore", Assign(<<Index(Id("vq"), i)>>, <<LitI(1)>>)>>,
+   <<"dslice", Blank(SliceE(Un("*", Id("vq")), i))>>, <<"opasg", OpAssign("+", Index(Id("vr"), i), LitI(1))>> >>
+ArrMisc == << <<"constlen", <<Const("c", "", LenVr), Use("c")>> >>, <<"constlensl", <<Const("c", "", Builtin("len", <<Id("vsl")>>)), Use("c")>> >>,
+   <<"constcap*", <<Const("c", "", Builtin("cap", <<Id("vq")>>)), Use("c")>> >>,
+   <<"conv127", <<Blank(Conv("int8", Bin("+", LenVr, LitI(124))))>> >>, <<"conv128", <<Blank(Conv("int8", Bin("+", LenVr, LitI(125))))>> >>,
+   <<"int8len", <<Var(<<"x">>, "int8", <<LenVr>>), Use("x")>> >>, <<"eq", <<Blank(Bin("==", Id("vr"), Un("*", Id("vq"))))>> >>,
+   <<"less", <<Blank(Bin("<", Id("vr"), Id("vr")))>> >>, <<"eqnil", <<Blank(Bin("==", Id("vr"), Id("nil")))>> >>, <<"peqnil", <<Blank(Bin("==", Id("vq"), Id("nil")))>> >>,
+   <<"asg", <<Assign(<<Id("vr")>>, <<Un("*", Id("vq"))>>)>> >>, <<"asgnil", <<Assign(<<Id("vr")>>, <<Id("nil")>>)>> >>, <<"asgsl", <<Assign(<<Id("vsl")>>, <<Id("vr")>>)>> >>,
+   <<"shl", <<Var(<<"x">>, "uint8", <<Bin("<<", LitI(1), LenVr)>>), Use("x")>> >>, <<"shl300", <<Var(<<"x">>, "uint8", <<Bin("<<", LitI(300), LenVr)>>), Use("x")>> >>,
+   <<"append", <<Blank(Builtin("append", <<Id("vr"), LitI(1)>>))>> >>, <<"appendsl", <<Blank(Builtin("append", <<SliceE(Id("vr"), LitI(0)), LitI(1)>>))>> >>,
+   <<"any", <<Var(<<"x">>, "any", <<Id("vr")>>), Use("x")>> >>, <<"lencall", <<Blank(Index(Id("vr"), Call(Id("f1"), <<LitI(3)>>)))>> >> >>
+ArrProgs == LET I == IF Tier = 1 THEN SubSeq(ArrIdx, 1, 10) ELSE ArrIdx
+                nf == IF Tier = 1 THEN 8 ELSE 13 IN
+   Flat(Map1(I, LAMBDA i : Map1(SubSeq(ArrForms(i[2]), 1, nf), LAMBDA f : Prog("array", f[1], <<"idx", "", i[1], "">>, <<>>, ArrPre \o <<f[2]>>))))
+   \o Map1(ArrMisc, LAMBDA m : Prog("array", m[1], NoDesc, <<>>, ArrPre \o m[2]))
+
+(* ---------------------------------------------------------------- B8: package-level variables with initializers.
+   Two variables x, y (and a function h) declared at package level in either order; the initializer of one refers to the other
+   directly, inside a function literal, through h - or only SEEMS to (a parameter of a function literal or of h with the same name
+   hides it).  Declaration order must not matter; dependencies decide the types and the initialization cycles. *)
+VarInit(name, t, e) == [k |-> "varinit", name |-> name, t |-> t, e |-> e]
+\* initializers of the variable me, the other variable being o: <<name, expr>>
+InitsOf(me, o) == <<
+   <<"1", LitI(1)>>, <<"o", Id(o)>>, <<"fl(o)", FL(o, Id(o), LitI(1))>>, <<"fl(o)+o", Bin("+", FL(o, Id(o), LitI(1)), Id(o))>>,
+   <<"o+fl(o)", Bin("+", Id(o), FL(o, Id(o), LitI(1)))>>, <<"fl(z:o)", FL("z", Id(o), LitI(1))>>, <<"fl(me)", FL(me, Id(me), LitI(1))>>,
+   <<"fl(z:me)", FL("z", Id(me), LitI(1))>>, <<"h", Call(Id("h"), <<LitI(1)>>)>>, <<"fl(o)+h", Bin("+", FL(o, Id(o), LitI(1)), Call(Id("h"), <<LitI(1)>>))>>,
+   \* ---- thorough tier only from here
+   <<"me", Id(me)>>, <<"fl(z)(o)", FL("z", Id("z"), Id(o))>>, <<"fl(o)(o)", FL(o, Id(o), Id(o))>>, <<"s", LitS>>, <<"fl(o:z)", FL(o, Id("z"), LitI(1))>>,
+   <<"fl(h)", FL("h", Id("h"), LitI(1))>>, <<"h(o)", Call(Id("h"), <<Id(o)>>)>>, <<"fl(o)+fl(z:o)", Bin("+", FL(o, Id(o), LitI(1)), FL("z", Id(o), LitI(1)))>> >>
+HTops == << <<"h(y):y", <<TFunc_("h", <<Par("y", "int")>>, <<"int">>, <<Return(<<Id("y")>>)>>)>> >>,
+            <<"h(a):x", <<TFunc_("h", <<Par("a", "int")>>, <<"int">>, <<Return(<<Id("x")>>)>>)>> >>,
+            \* ---- thorough tier only from here
+            <<"h(a):y", <<TFunc_("h", <<Par("a", "int")>>, <<"int">>, <<Return(<<Id("y")>>)>>)>> >>,
+            <<"h(a):a", <<TFunc_("h", <<Par("a", "int")>>, <<"int">>, <<Return(<<Id("a")>>)>>)>> >>, <<"noh", <<>> >> >>
+PkgInitProgs ==
+   LET nx == IF Tier = 1 THEN 10 ELSE Len(InitsOf("x", "y"))
+       X == SubSeq(InitsOf("x", "y"), 1, nx)
+       Y == IF Tier = 1 THEN << <<"2", LitI(2)>>, <<"o", Id("x")>> >>
+            ELSE << <<"2", LitI(2)>>, <<"o", Id("x")>>, <<"fl(o)", FL("x", Id("x"), LitI(1))>>, <<"s", LitS>>, <<"h", Call(Id("h"), <<LitI(1)>>)>>, <<"fl(z:o)", FL("z", Id("x"), LitI(1))>> >>
+       H == IF Tier = 1 THEN SubSeq(HTops, 1, 2) ELSE HTops
+       XT == IF Tier = 1 THEN <<"">> ELSE <<"", "int">>
+       mk(x, y, h, xt, order) ==
+          LET dx == VarInit("x", xt, x[2]) dy == VarInit("y", "", y[2]) IN
+          [Prog("pkginit", order, <<x[1], y[1], h[1], xt>>, <<>>, <<Blank(Id("x")), Blank(Id("y"))>>)
+             EXCEPT !.tops = IF order = "xyh" THEN <<dx, dy>> \o h[2] ELSE IF order = "yxh" THEN <<dy, dx>> \o h[2] ELSE h[2] \o <<dx, dy>>] IN
+   Flat(Map1(X, LAMBDA x : Flat(Map1(Y, LAMBDA y : Flat(Map1(H, LAMBDA h : Flat(Map1(XT, LAMBDA xt :
+        Map1(IF Tier = 1 THEN <<"xyh", "yxh">> ELSE <<"xyh", "yxh", "hxy">>, LAMBDA order : mk(x, y, h, xt, order))))))))))
+
 (* ---------------------------------------------------------------- the case set *)
 \* (new families are appended: the ids of the older programs do not change)
-Progs == ExprProgs \o TermProgs \o DeclProgs \o ImportProgs \o TopProgs \o ScopeProgs \o CallProgs \o MvProgs \o LifeProgs
+Progs == ExprProgs \o TermProgs \o DeclProgs \o ImportProgs \o TopProgs \o ScopeProgs \o CallProgs \o MvProgs \o LifeProgs \o ArrProgs \o PkgInitProgs
 Verd3(v) == IF v = "ok" THEN "accept" ELSE IF v = "undef" THEN "undef" ELSE "reject"
 \* Progs is bound ONCE by the LET (a top-level reference would re-evaluate the whole sequence each time)
 Cases == LET P == Progs IN
